@@ -97,6 +97,8 @@ where
 
     #[inline]
     pub fn decode_page(&self, page_index: usize, reader: &Reader) -> Result<Vec<T>> {
+        #[cfg(anydb_verif)]
+        crate::verif_locks::tap("pages", &self.pages, false);
         Self::decode_page_with(self.stored_len(), page_index, reader, &self.pages.read())
     }
 
@@ -223,6 +225,8 @@ where
         }
 
         let reader = self.create_reader();
+        #[cfg(anydb_verif)]
+        crate::verif_locks::tap("pages", &self.pages, false);
         let pages = self.pages.read();
         let real_len = pages.stored_len(Self::PER_PAGE);
         let to = to.min(real_len);
